@@ -2034,3 +2034,24 @@ def x_fdopen(c):
     """os.fdopen(fd, mode): a file object around a descriptor (open(fd, mode))"""
     c.rz("OSError", "os.fdopen() may fail", pure=False)
     c.ret(None, ("type", c.term, frozenset(["obj:file"])), pure=False)
+
+
+@ext("os.dup2", "os.dup", "os.close")
+def x_os_fd(c):
+    """descriptor plumbing: may fail, changes process-wide descriptor state"""
+    c.rz("OSError", "%s() may fail" % c.callee[4:], pure=False)
+    s1 = c.s.copy()
+    s1.ev("store", c.site, G("ext:os.<descriptor table>"), c.args[0] if c.args else C(None))
+    c.ret(None, ("type", c.term, frozenset(["int", "NoneType"])), pure=False, state=s1)
+
+
+@ext("sys.stdout.fileno", "sys.stderr.fileno", "sys.stdin.fileno")
+def x_std_fileno(c):
+    c.rz("OSError", "fileno() of a stream without a descriptor", pure=False)
+    c.ret(None, ("type", c.term, frozenset(["int"])), pure=False)
+
+
+@ext("sys.stdout.flush", "sys.stderr.flush")
+def x_std_flush(c):
+    c.rz("OSError", "flush() of a closed pipe (BrokenPipeError)", pure=False)
+    c.ret(C(None), pure=False)
